@@ -524,15 +524,17 @@ pub proof fn lemma_usage_step(s: &Schedule, du1: UsageMap, tours1: TourMap, v: V
     lemma_usage_exact_step(s.depot_usage@, du1, &s.network, s.vehicles@, s.tours@, s.vehicles@, tours1, v);
 }
 
+/// what the operation did to the maps that carry ids (the clauses of the contract that lemma_ids_stay_valid builds on)
+pub open spec fn ids_step(s: &Schedule, v: VehicleIdx, tours1: TourMap, dummies1: TourMap, ids1: Seq<VehicleIdx>, counter1: usize, added: bool) -> bool {
+    &&& s.ids_ok() && s.vehicles@.contains_key(v) && s.vehicle_counter <= 0xffff
+    &&& tours1.contains_key(v) && s.other_tours_untouched(v, tours1)
+    &&& added ==> dummies1 == s.dummy_tours@.insert(s.next_dummy_id(), dummies1[s.next_dummy_id()]) && sorted_cmp(ids1) && counter1 == s.vehicle_counter + 1
+    &&& !added ==> dummies1 == s.dummy_tours@ && ids1 == s.dummy_ids_sorted@ && counter1 == s.vehicle_counter
+}
 /// C10: the ids stay valid
 pub proof fn lemma_ids_stay_valid(s: &Schedule, v: VehicleIdx, tours1: TourMap, dummies1: TourMap, ids1: Seq<VehicleIdx>, counter1: usize, added: bool)
-    requires
-        s.ids_ok(), s.vehicles@.contains_key(v), s.vehicle_counter <= 0xffff,
-        tours1.contains_key(v), s.other_tours_untouched(v, tours1),
-        added ==> dummies1 == s.dummy_tours@.insert(s.next_dummy_id(), dummies1[s.next_dummy_id()]) && sorted_cmp(ids1) && counter1 == s.vehicle_counter + 1,
-        !added ==> dummies1 == s.dummy_tours@ && ids1 == s.dummy_ids_sorted@ && counter1 == s.vehicle_counter,
-    ensures
-        ids_valid(s.vehicles@, tours1, dummies1, ids1, counter1),
+    requires ids_step(s, v, tours1, dummies1, ids1, counter1, added),
+    ensures ids_valid(s.vehicles@, tours1, dummies1, ids1, counter1),
 {
     assert forall|d: VehicleIdx| #[trigger] dummies1.contains_key(d) implies d is Dummy && (d->Dummy_0 as int) < counter1 by {
         if d != s.next_dummy_id() { assert(s.dummy_tours@.contains_key(d)); }
